@@ -118,3 +118,21 @@ Definition check_c02 (c : c02case) : bool :=
       && Qlist_close (map Qsum rs) (i_agg_current c)
       && Qlist_close (map (fun col => dotQ (map s_volt net) col / 1000) rs) (i_agg_power c)
   end.
+
+(* the ledger equalities evaluated EXACTLY (Qeq, no tolerance) by the executable twin on its own run;
+   used by Example C02_exec_example *)
+Definition ledger_exact_Q (T : Q) (net : list (stn (F:=Q))) (ops : list (@op Q (batt Q))) : bool :=
+  match simulate QO KQ T net ops with
+  | None => false
+  | Some st =>
+      forallb (fun e =>
+                 Qeq_bool (e_energy e) (ledger_sum QO T net (cols st) (occs st) (e_sid e))
+                 && match init_charge KQ ops (e_sid e) with
+                    | Some c0 => Qeq_bool (e_energy e) (b_cur (e_batt e) - c0) && Qltb 0 (e_energy e)
+                    | None => false
+                    end) (all_evs st)
+      && Qeq_bool (Qsum (map e_energy (all_evs st)))
+                  (Qsum (map (fun col => dotQ (map s_volt net) col / 1000 * (T / 60)) (cols st)))
+      && Qeq_bool (peak st) (fold_right (fun col acc => Qmax acc (Qsum col)) 0 (cols st))
+      && Nat.eqb (List.length (all_evs st)) 3
+  end.
